@@ -1,3 +1,4 @@
+mod driver;
 mod exec;
 mod fmt;
 mod gen;
@@ -86,7 +87,17 @@ fn run_suite(suite: &str, seed: u64, thorough: bool, out: &str, shards: usize) {
                             "pair" => gen::gen_pair(seed, &tier, shard, shards, &mut emit),
                             "apply" => gen::gen_apply(seed, &tier, shard, shards, &mut emit),
                             "node" => gen::gen_node(seed, &tier, shard, shards, &mut emit),
+                            "wire" => gen::gen_wire(seed, &tier, shard, shards, &mut emit),
+                            "mtu" => gen::gen_mtu(seed, &tier, shard, shards, &mut emit),
                             _ => usage(),
+                        }
+                    }
+                    {
+                        let mut mf = File::create(format!("{prefix}.monitor")).unwrap();
+                        for h in &sink.exec.hits {
+                            // add the shard to the record
+                            let h = h.replacen('{', &format!("{{\"shard\": {shard}, "), 1);
+                            writeln!(mf, "{h}").unwrap();
                         }
                     }
                     sink.model_in.flush().unwrap();
@@ -117,6 +128,7 @@ fn exec_file(raw: &str, model_in: &str, impl_out: &str) {
     let mut ex = Exec::new();
     let mut mi = BufWriter::new(File::create(model_in).unwrap());
     let mut io = BufWriter::new(File::create(impl_out).unwrap());
+    let monitor_path = format!("{}.monitor", impl_out.trim_end_matches(".impl.out"));
     for line in BufReader::new(File::open(raw).unwrap()).lines() {
         let line = line.unwrap();
         if line.trim().is_empty() {
@@ -131,6 +143,10 @@ fn exec_file(raw: &str, model_in: &str, impl_out: &str) {
             writeln!(mi, "{l}").unwrap();
             writeln!(io, "{o}").unwrap();
         }
+    }
+    let mut mf = File::create(monitor_path).unwrap();
+    for h in &ex.hits {
+        writeln!(mf, "{h}").unwrap();
     }
 }
 
